@@ -188,3 +188,87 @@ theorem go_spec (f : Nat → Dial) : ∀ (n i : Nat) (failed : Bool),
       · intro hn; have := (d hn).2; simp at this
 
 end C17Retry
+
+namespace C17EvDeb
+open EvStop
+
+/-- invariant of the code that exists: stop() never holds (or waits for) e.mu; the flusher holds it exactly while
+    flushing; a stop() in its send has a live flusher -/
+structure Inv (x : St) : Prop where
+  noS : x.mu ≠ .S
+  sNoLock : x.s ≠ .wantLock
+  fHolds : x.mu = .F ↔ x.f = .flushing
+  alive : x.s = .sending → x.f ≠ .exited
+  gone : (x.s = .closing ∨ x.s = .done) → x.f = .exited
+  early : x.s = .idle → x.f ≠ .exited
+
+theorem inv_init : Inv init := by constructor <;> simp [init]
+
+theorem inv_step (x x' : St) (a : Act) (h : Inv x) (hs : step x a = some x') : Inv x' := by
+  obtain ⟨h1, h2, h3, h4, h5, h6⟩ := h
+  obtain ⟨m, ar, fi, ev, f, s, cb⟩ := x
+  cases a <;> simp only [step, stepG] at hs <;> (repeat' split at hs) <;>
+    (first
+      | (simp at hs; done)
+      | (injection hs with hs; subst hs; constructor <;> simp_all <;> (cases m <;> cases f <;> simp_all)))
+
+theorem inv_run : ∀ (as : List Act) (x x' : St), Inv x → run x as = some x' → Inv x'
+  | [], x, x', h, hr => by simp [run, runG] at hr; subst hr; exact h
+  | a :: as, x, x', h, hr => by
+    simp only [run, runG] at hr
+    split at hr
+    · rename_i x1 hx1; exact inv_run as x1 x' (inv_step x x1 a h hx1) hr
+    · simp at hr
+
+/-- a blocked stop(): some step of the flusher is enabled, unless somebody else is inside e.mu — who can leave -/
+theorem progress (x : St) (h : Inv x) (hs : x.s = .sending) :
+    (∃ a, fAct a = true ∧ (step x a).isSome = true) ∨ (x.mu = .H ∧ (step x .hunlock).isSome = true) := by
+  obtain ⟨h1, h2, h3, h4, h5, h6⟩ := h
+  obtain ⟨m, ar, fi, ev, f, s, cb⟩ := x
+  simp only at hs; subst hs
+  cases f with
+  | select => cases fi with
+    | true => exact Or.inl ⟨.fTimer, rfl, by simp [step, stepG]⟩
+    | false => exact Or.inl ⟨.fQuit, rfl, by simp [step, stepG]⟩
+  | wantLock =>
+    cases m with
+    | none => exact Or.inl ⟨.fLock, rfl, by simp [step, stepG]⟩
+    | H => exact Or.inr ⟨rfl, by simp [step, stepG]⟩
+    | F => simp at h3
+    | S => simp at h1
+  | flushing => exact Or.inl ⟨.fFlush, rfl, by simp [step, stepG]⟩
+  | exited => simp at h4
+
+/-- every flusher step while stop() is blocked shrinks the measure (or releases stop) -/
+theorem mu_step (x x' : St) (a : Act) (hs : x.s = .sending) (hst : step x a = some x') (hf : fAct a = true) :
+    x'.s = .closing ∨ (x'.s = .sending ∧ EvStop.mu x' < EvStop.mu x) := by
+  obtain ⟨m, ar, fi, ev, f, s, cb⟩ := x
+  simp only at hs; subst hs
+  cases a <;> simp [fAct] at hf <;> simp only [step, stepG] at hst <;> (repeat' split at hst) <;>
+    (first
+      | (simp at hst; done)
+      | (injection hst with hst; subst hst; simp_all [EvStop.mu] <;> (try (cases fi <;> simp)) ))
+
+/-- seeded variant: stop() holds e.mu in its send while the flusher wants it -/
+structure Dead (x : St) : Prop where
+  mu : x.mu = .S
+  f : x.f = .wantLock
+  s : x.s = .sending
+
+theorem dead_step (x x' : St) (a : Act) (h : Dead x) (hs : stepG true x a = some x') : Dead x' := by
+  obtain ⟨h1, h2, h3⟩ := h
+  obtain ⟨m, ar, fi, ev, f, s, cb⟩ := x
+  cases a <;> simp only [stepG] at hs <;> (repeat' split at hs) <;>
+    (first
+      | (simp at hs; done)
+      | (injection hs with hs; subst hs; constructor <;> simp_all))
+
+theorem dead_run : ∀ (as : List Act) (x x' : St), Dead x → runG true x as = some x' → Dead x'
+  | [], x, x', h, hr => by simp [runG] at hr; subst hr; exact h
+  | a :: as, x, x', h, hr => by
+    simp only [runG] at hr
+    split at hr
+    · rename_i x1 hx1; exact dead_run as x1 x' (dead_step x x1 a h hx1) hr
+    · simp at hr
+
+end C17EvDeb
